@@ -165,6 +165,45 @@ def run(ctx):
             a, b = rnd.randint(1, n), rnd.randint(1, n)
             ops.append({"op": "AddLink", "a": a, "ao": rnd.choice("+-"), "b": b, "bo": rnd.choice("+-"), "ov": rnd.choice([0, 0, 3]), "tg": []})
         gjobs.append((f"r{ri}", ops, [False] * (len(ops) - 1) + [True]))
+    # the repository's fixture graphs, and neighbourhoods cut out of its real chr1 graph (90k segments): real bubble shapes
+    import gzip
+
+    def ops_from_lines(lines, keep=None):
+        ids, ops = {}, []
+        for l in lines:
+            f = l.rstrip("\n").split("\t")
+            if f[0] == "S" and (keep is None or f[1] in keep):
+                ids[f[1]] = len(ids) + 1
+                ops.append({"op": "AddNode", "n": ids[f[1]]})
+        for l in lines:
+            f = l.rstrip("\n").split("\t")
+            if f[0] == "L" and f[1] in ids and f[3] in ids:
+                ops.append({"op": "AddLink", "a": ids[f[1]], "ao": f[2], "b": ids[f[3]], "bo": f[4], "ov": int(f[5][:-1]), "tg": []})
+        return ops
+
+    for fx in ("smallgraph.gfa", "test_GFA_class.gfa", "test_GFA_class_wrong_graph.gfa", "smallgraph_withN.gfa"):
+        ops = ops_from_lines(open("/repo/tests/data/" + fx).read().splitlines())
+        gjobs.append((f"fx_{fx}", ops, [False] * (len(ops) - 1) + [True]))
+    big = gzip.open("/repo/tests/data/large-graph-chr1.gfa.gz", "rt").read().splitlines()
+    adj = {}
+    for l in big:
+        if l.startswith("L"):
+            f = l.split("\t")
+            adj.setdefault(f[1], []).append(f[3])
+            adj.setdefault(f[3], []).append(f[1])
+    names = sorted(adj)
+    for bi in range(60 if ctx.thorough else 12):
+        start = rnd.choice(names)
+        ball, frontier = [start], [start]
+        while frontier and len(ball) < rnd.randint(6, 14):
+            x = frontier.pop(0)
+            for y in adj.get(x, []):
+                if y not in ball and len(ball) < 14:
+                    ball.append(y)
+                    frontier.append(y)
+        ops = ops_from_lines(big, set(ball))
+        if len(ops) > 1:
+            gjobs.append((f"ball{bi}", ops, [False] * (len(ops) - 1) + [True]))
     gcases = pool_map(run_history, gjobs, chunk=64)
     ctx.evaluations += len(gcases)
     for c in gcases:
